@@ -1,1 +1,269 @@
-(* C04 - to be filled *)
+(* C04 - ROM positions are contiguous, ordered and exclude noload data.
+   Only statements, each closed by [exact]; see Proofs/C04.v.  "Link level" theorems are about LdSem
+   executing the generated statements, for every previous-pass environment [env]/[senv], every set of
+   object symbols [ext], both kinds of pass ([final]) and every starting state. *)
+From Slinky Require Import Model.Types Model.Runtime Model.Style Model.Script Model.Writer Model.LdSem.
+From Slinky Require Import Spec.C17 Spec.C04 Proofs.C18 Proofs.C17 Proofs.C04.
+From Coq Require Import ZArith.
+Local Open Scope string_scope.
+Local Open Scope Z_scope.
+
+(* ====================================================================== *)
+(* script level                                                            *)
+(* ====================================================================== *)
+
+(* the SECTIONS block starts with "__romPos = 0x0", which ld evaluates to 0 *)
+Theorem C04_rom_starts_at_zero : forall st,
+  begin_sections_body st = rom_init :: (hardcoded_gp_stmts st ++ [SBlank])%list.
+Proof. exact begin_sections_rom. Qed.
+
+Theorem C04_zero_literal : forall env ext st, eval_raw env ext st "0x0" = Ok 0.
+Proof. exact eval_raw_0x0. Qed.
+
+(* C04_script, multi-segment mode.  In the whole SECTIONS body: the statements that assign __romPos
+   (at any depth) are the initial assignment and, per included segment in document order, the
+   optional start alignment, one "__romPos += SIZEOF(.name)" and the optional end alignment; the
+   output-section headers are, per included segment, ".name" with the requested address and
+   AT(name_ROM_START), then ".name.noload" marked NOLOAD with neither; SIZEOF is never taken of a
+   noload section *)
+Theorem C04_script : forall rt stg cfg classes segs ws s ws',
+  single_segment_mode stg = false ->
+  add_all_segments rt stg cfg classes segs ws = Ok (s, ws') ->
+  exists all rest,
+    s = [SSections all] /\ all = rom_init :: rest /\
+    filter (assigns "__romPos") all = rom_init :: flat_map segment_rom_stmts (included rt segs) /\
+    headers all = flat_map (segment_headers (linker_symbols_style stg)) (included rt segs) /\
+    rom_adds all = map alloc_name (included rt segs).
+Proof. exact script_multi. Qed.
+
+(* the same, one segment at a time (also the main partial script, which uses add_segment) *)
+Theorem C04_script_segment : forall rt stg cfg classes seg ws s ws',
+  add_segment rt stg cfg classes seg ws = Ok (s, ws') ->
+  filter (assigns "__romPos") s = (if should_emit rt (sg_conds seg) then segment_rom_stmts seg else []) /\
+  headers s = (if should_emit rt (sg_conds seg) then segment_headers (linker_symbols_style stg) seg else []) /\
+  rom_adds s = (if should_emit rt (sg_conds seg) then [alloc_name seg] else []).
+Proof. exact script_segment. Qed.
+
+(* single-segment mode: no ROM bookkeeping, one header per configured section, the noload ones
+   marked NOLOAD, none with an address or AT *)
+Theorem C04_script_single : forall rt stg cfg classes seg ws s ws',
+  add_single_segment rt stg cfg classes seg ws = Ok (s, ws') ->
+  exists all,
+    s = [SSections all] /\
+    filter (assigns "__romPos") all = [] /\
+    headers all = (map (fun sec => (sec, None, None, false)) (alloc_sections seg) ++
+                   map (fun sec => (sec, None, None, true)) (noload_sections seg))%list /\
+    rom_adds all = [].
+Proof. exact script_single. Qed.
+
+(* the generated names are never "__romPos" or "." *)
+Theorem C04_generated_name_not_rompos : forall sty s,
+  style_name sty s -> s <> "__romPos" /\ s <> "." /\ s <> "_gp".
+Proof. exact generated_name_not_special. Qed.
+
+Example ex_generated_names : forall sty n sec,
+  style_name sty (segment_rom_start sty n) /\ style_name sty (segment_rom_end sty n) /\
+  style_name sty (segment_rom_size sty n) /\ style_name sty (segment_section_start sty n sec) /\
+  style_name sty (linker_offset sty n) /\ style_name sty (vram_class_end sty n).
+Proof. intros. repeat split; eexists _, _; (split; [|reflexivity]); simpl; tauto. Qed.
+
+(* ====================================================================== *)
+(* link level                                                              *)
+(* ====================================================================== *)
+
+(* executing the head of the SECTIONS block leaves __romPos = 0 *)
+Theorem C04_rom_zero_link : forall env senv ext final stg st,
+  let st' := run env senv ext final (begin_sections_body stg) st in
+  val st' "__romPos" = Some 0 /\ l_secs st' = l_secs st /\ l_remaining st' = l_remaining st /\
+  l_errors st' = l_errors st /\ l_dot st' = l_dot st.
+Proof. exact run_begin. Qed.
+
+(* frame: a statement list that does not assign x leaves x as it is *)
+Theorem C04_frame : forall env senv ext final l x st,
+  existsb (assigns x) l = false ->
+  lookup x (l_syms (run env senv ext final l st)) = lookup x (l_syms st).
+Proof. exact run_syms. Qed.
+
+(* a NOLOAD output section is created no-load and without file contents whatever it receives *)
+Theorem C04_noload_section : forall env senv ext final name at_ sub body st,
+  let st' := exec_outsec env senv ext final name None at_ true sub body st in
+  exists o, l_secs st' = (l_secs st ++ [o])%list /\ os_name o = name /\
+            os_noload o = true /\ os_contents o = false /\
+            os_vma o = align_up (l_dot st) (body_align (option_map Z.of_N sub) body (l_remaining st) 1).
+Proof. exact noload_section. Qed.
+
+(* C04_segment_rom, for the statements of a segment with ARBITRARY section bodies [body1] (the
+   allocatable section), arbitrary statements [a1], [b1] around it and an arbitrary noload part [s2]:
+   ROM_START = align_up r sa; the section .name gets load address ROM_START and is loadable; __romPos
+   and ROM_END = align_up (ROM_START + SIZEOF(.name)) ea; ROM_SIZE = ROM_END - ROM_START.
+   Hypotheses: no other output section is called .name, the other statements do not assign __romPos
+   (true of what the writer emits: C04_script), each of the three ROM symbols is assigned once in the
+   list (rom_names_distinct, see ex_rom_names_distinct) and the address of .name could be evaluated *)
+Theorem C04_segment_rom_any_body : forall env senv ext final stg seg cls a1 addr sub body1 b1 s2 st0 r,
+  let sty := linker_symbols_style stg in
+  let name := sg_name seg in
+  let RS := segment_rom_start sty name in
+  let RE := segment_rom_end sty name in
+  let RZ := segment_rom_size sty name in
+  let L1 := (cls ++ seg_head stg seg ++ a1 ++ [SOutSec (alloc_name seg) addr (Some RS) false sub body1] ++ b1)%list in
+  let L := (L1 ++ [SBlank] ++ s2 ++ [SBlank] ++ seg_foot stg seg)%list in
+  let st1 := run env senv ext final L1 st0 in
+  let st' := run env senv ext final L st0 in
+  val st0 "__romPos" = Some r ->
+  find_sec (alloc_name seg) (l_secs st0) = None ->
+  ~ In (alloc_name seg) (flat_map makes_sec (cls ++ a1)) ->
+  no_assign "__romPos" (cls ++ a1 ++ body1 ++ b1 ++ s2) = true ->
+  rom_names_distinct sty name L = true ->
+  ~ In (LForwardRef (alloc_name seg)) (l_errors st') ->
+  sizes_ok st0 ->
+  let rs := align_up r (align_z (segment_start_align seg)) in
+  exists o,
+    find_sec (alloc_name seg) (l_secs st1) = Some o /\
+    find_sec (alloc_name seg) (l_secs st') = Some o /\
+    os_lma o = Some rs /\ os_noload o = false /\ 0 <= os_size o /\
+    let re := align_up (rs + os_size o) (align_z (segment_end_align seg)) in
+    val st' "__romPos" = Some re /\ val st' RS = Some rs /\ val st' RE = Some re /\ val st' RZ = Some (re - rs).
+Proof. exact segment_rom_general. Qed.
+
+(* ... hence the noload part contributes nothing: with any other noload statements [s2'] the ROM
+   position and the three ROM symbols are the same *)
+Theorem C04_noload_takes_no_rom : forall env senv ext final stg seg cls a1 addr sub body1 b1 s2 s2' st0 r,
+  let sty := linker_symbols_style stg in
+  let name := sg_name seg in
+  let RS := segment_rom_start sty name in
+  let L1 := (cls ++ seg_head stg seg ++ a1 ++ [SOutSec (alloc_name seg) addr (Some RS) false sub body1] ++ b1)%list in
+  let L := fun s2 => (L1 ++ [SBlank] ++ s2 ++ [SBlank] ++ seg_foot stg seg)%list in
+  val st0 "__romPos" = Some r ->
+  find_sec (alloc_name seg) (l_secs st0) = None ->
+  ~ In (alloc_name seg) (flat_map makes_sec (cls ++ a1)) ->
+  no_assign "__romPos" (cls ++ a1 ++ body1 ++ b1 ++ s2) = true ->
+  no_assign "__romPos" (cls ++ a1 ++ body1 ++ b1 ++ s2') = true ->
+  rom_names_distinct sty name (L s2) = true ->
+  rom_names_distinct sty name (L s2') = true ->
+  ~ In (LForwardRef (alloc_name seg)) (l_errors (run env senv ext final (L s2) st0)) ->
+  ~ In (LForwardRef (alloc_name seg)) (l_errors (run env senv ext final (L s2') st0)) ->
+  sizes_ok st0 ->
+  forall x, In x ["__romPos"; RS; segment_rom_end sty name; segment_rom_size sty name] ->
+            val (run env senv ext final (L s2) st0) x = val (run env senv ext final (L s2') st0) x.
+Proof. exact noload_independent. Qed.
+
+(* C04_segment_rom for what add_segment emits for an included segment *)
+Theorem C04_segment_rom : forall env senv ext final rt stg cfg classes seg ws s ws' st0 r,
+  add_segment rt stg cfg classes seg ws = Ok (s, ws') ->
+  should_emit rt (sg_conds seg) = true ->
+  let sty := linker_symbols_style stg in
+  let name := sg_name seg in
+  let st' := run env senv ext final s st0 in
+  val st0 "__romPos" = Some r ->
+  find_sec (alloc_name seg) (l_secs st0) = None ->
+  rom_names_distinct sty name s = true ->
+  ~ In (LForwardRef (alloc_name seg)) (l_errors st') ->
+  sizes_ok st0 ->
+  let rs := align_up r (align_z (segment_start_align seg)) in
+  exists o,
+    find_sec (alloc_name seg) (l_secs st') = Some o /\
+    os_lma o = Some rs /\ os_noload o = false /\ 0 <= os_size o /\
+    let re := align_up (rs + os_size o) (align_z (segment_end_align seg)) in
+    val st' "__romPos" = Some re /\
+    val st' (segment_rom_start sty name) = Some rs /\
+    val st' (segment_rom_end sty name) = Some re /\
+    val st' (segment_rom_size sty name) = Some (re - rs).
+Proof. exact segment_rom. Qed.
+
+(* C04_chain: over all the segments, read in the state at the end: the first emitted segment starts at
+   align_up r sa_1, each next one at align_up (previous ROM_END) sa, ... (RomChain, Spec/C04.v).
+   The names of the output sections of the emitted segments must be pairwise different (SIZEOF(.name)
+   reads the first section of that name) and each ROM symbol must be assigned once *)
+Theorem C04_chain : forall env senv ext final rt stg cfg classes segs ws body ws' st0 r,
+  fold_out (add_segment rt stg cfg classes) segs ws = Ok (body, ws') ->
+  let sty := linker_symbols_style stg in
+  val st0 "__romPos" = Some r ->
+  (forall seg, In seg (included rt segs) -> find_sec (alloc_name seg) (l_secs st0) = None) ->
+  NoDup (out_names (included rt segs)) ->
+  (forall seg, In seg (included rt segs) -> rom_names_distinct sty (sg_name seg) body = true) ->
+  (forall n, ~ In (LForwardRef n) (l_errors (run env senv ext final body st0))) ->
+  sizes_ok st0 ->
+  RomChain sty (run env senv ext final body st0) r (included rt segs).
+Proof. exact rom_chain_fold. Qed.
+
+(* the whole SECTIONS body of a multi-segment script: the chain starts at 0 *)
+Theorem C04_chain_sections : forall env senv ext final rt stg cfg classes segs ws body ws' st0,
+  fold_out (add_segment rt stg cfg classes) segs ws = Ok (body, ws') ->
+  let sty := linker_symbols_style stg in
+  let all := (begin_sections_body stg ++ body ++ end_sections_body stg classes ws')%list in
+  (forall seg, In seg (included rt segs) -> find_sec (alloc_name seg) (l_secs st0) = None) ->
+  NoDup (out_names (included rt segs)) ->
+  (forall seg, In seg (included rt segs) -> rom_names_distinct sty (sg_name seg) all = true) ->
+  (forall n, ~ In (LForwardRef n) (l_errors (run env senv ext final all st0))) ->
+  sizes_ok st0 ->
+  RomChain sty (run env senv ext final all st0) 0 (included rt segs).
+Proof. exact rom_chain_sections. Qed.
+
+(* ROM addresses never go backwards: for an earlier segment a and a later one b,
+   r <= ROM_START a <= ROM_END a <= ROM_START b *)
+Theorem C04_rom_monotone : forall sty st l1 a l2 b l3 r,
+  RomChain sty st r (l1 ++ a :: l2 ++ b :: l3) ->
+  exists sa ea sb,
+    val st (segment_rom_start sty (sg_name a)) = Some sa /\
+    val st (segment_rom_end sty (sg_name a)) = Some ea /\
+    val st (segment_rom_start sty (sg_name b)) = Some sb /\
+    r <= sa /\ sa <= ea /\ ea <= sb.
+Proof. exact rom_monotone. Qed.
+
+(* ====================================================================== *)
+(* examples: the sample document meets the hypotheses                      *)
+(* ====================================================================== *)
+
+Definition ex_sections_body : list stmt :=
+  match add_all_segments ex_rt ex_settings cfg_normal (doc_vram_classes ex_doc) (doc_segments ex_doc) ws0 with
+  | Ok ([SSections body], _) => body
+  | _ => []
+  end.
+
+(* every ROM symbol of every emitted segment is assigned exactly once in the SECTIONS body *)
+Example ex_rom_names_distinct :
+  forallb (fun seg => rom_names_distinct Splat (sg_name seg) ex_sections_body)
+          (included ex_rt (doc_segments ex_doc)) = true /\
+  List.length (included ex_rt (doc_segments ex_doc)) = 2%nat.
+Proof. split; vm_compute; reflexivity. Qed.
+
+Example ex_out_names_distinct : NoDup (out_names (included ex_rt (doc_segments ex_doc))).
+Proof. vm_compute. repeat constructor; simpl; intuition discriminate. Qed.
+
+(* a full link of the sample script against a small set of objects ends without error, and the ROM
+   symbols have the chained values: boot occupies [0, 68), ovl_a starts at align_up 68 16 = 80 *)
+Definition ex_universe : list usec :=
+  [USec "build/src/boot.o" None ".text" 40 16 false "boot_text";
+   USec "build/src/boot.o" None ".data" 12 8 false "boot_data";
+   USec "build/src/boot.o" None ".bss" 100 8 true "boot_bss";
+   USec "build/src/a.o" None ".text" 24 4 false "a_text";
+   USec "build/src/a.o" None ".bss" 8 4 true "a_bss"].
+
+Definition ex_script : list stmt :=
+  match gen_normal ex_doc ex_rt with Ok w => wo_script w | Err _ => [] end.
+
+Example ex_link_rom :
+  let st := layout ex_script ex_universe [("main", 5)] in
+  l_errors st = [] /\
+  val st "boot_ROM_START" = Some 0 /\ val st "boot_ROM_END" = Some 68 /\ val st "boot_ROM_SIZE" = Some 68 /\
+  val st "ovl_a_ROM_START" = Some 80 /\ val st "ovl_a_ROM_END" = Some 104 /\ val st "__romPos" = Some 104 /\
+  map (fun o => (os_name o, os_lma o, os_noload o, os_contents o)) (firstn 4 (l_secs st)) =
+  [(".boot", Some 0, false, true); (".boot.noload", None, true, false);
+   (".ovl_a", Some 80, false, true); (".ovl_a.noload", None, true, false)].
+Proof. vm_compute. repeat split; reflexivity. Qed.
+
+Print Assumptions C04_rom_starts_at_zero.
+Print Assumptions C04_zero_literal.
+Print Assumptions C04_script.
+Print Assumptions C04_script_segment.
+Print Assumptions C04_script_single.
+Print Assumptions C04_generated_name_not_rompos.
+Print Assumptions C04_rom_zero_link.
+Print Assumptions C04_frame.
+Print Assumptions C04_noload_section.
+Print Assumptions C04_segment_rom_any_body.
+Print Assumptions C04_noload_takes_no_rom.
+Print Assumptions C04_segment_rom.
+Print Assumptions C04_chain.
+Print Assumptions C04_chain_sections.
+Print Assumptions C04_rom_monotone.
